@@ -1,24 +1,24 @@
 SPECIFICATION Spec
 CONSTANTS
-  N = 4
-  Kinds <- K_callables
-  TKs <- TK_core
+  N = 3
+  Kinds <- K_class
+  TKs <- TK_small
   AllowList = FALSE
   AllowNSkip = FALSE
   AllowVSkip = FALSE
-  AllowReturn = TRUE
+  AllowReturn = FALSE
   AllowMoved = FALSE
   AllowHost = FALSE
-  AllowRename = FALSE
+  AllowRename = TRUE
   MaxFunctions = 1
   Stepwise = FALSE
   AliasRecheck = TRUE
   CallableWalks = 2
   RenameScopeCheck = TRUE
-  COrder = TRUE
-  Orders <- Id4
-  KnownShapes <- Known_c
+  COrder = FALSE
+  Orders <- Id3
+  KnownShapes <- Known_any
   ExportViol = 1
-  ExportOk = 997
+  ExportOk = 499
 INVARIANT NoUnknownViolation
 CHECK_DEADLOCK FALSE
